@@ -38,12 +38,16 @@ func genC08(r *prng) *plan {
 		}
 		klen := int64(1 + r.intn(40))
 		if r.chance(10) {
-			klen = int64(1 + r.intn(1100)) // the request itself must fit one packet
+			klen = int64(1 + r.intn(800)) // the request must fit one packet even when it rides on a handshake (which carries the ENR)
 		}
 		p.Ops = append(p.Ops, opSpec{K: "store", N: []int64{int64(i), sz, klen}})
 	}
 	n := 4 + r.intn(8)
 	for i := 0; i < n; i++ {
+		if p.Cfg["faults"] == 1 && r.chance(15) {
+			// partition the responder from one asker (one or both directions) for a while, then heal
+			p.Ops = append(p.Ops, opSpec{K: "partition", N: []int64{int64(r.intn(2)), int64(r.intn(2)), int64(200 + r.intn(4000))}})
+		}
 		who := int64(r.intn(2))
 		if r.chance(30) {
 			p.Ops = append(p.Ops, opSpec{K: "askmissing", N: []int64{who, int64(r.u64() >> 1)}})
@@ -124,6 +128,19 @@ func runC08(seed uint64) {
 			model[string(key)] = val
 			keys[op.n(0)] = key
 			w.op("store key#%d klen=%d size=%d", op.n(0), len(key), len(val))
+		case "partition":
+			peer := A.sock.addr
+			if op.n(0) == 1 {
+				peer = P.sock.addr
+			}
+			w.net.partition(R.sock.addr, peer, op.n(1) == 1)
+			w.op("partition R-%s both=%v for %dms", peer, op.n(1) == 1, op.n(2))
+			healAt := w.now() + time.Duration(op.n(2))*time.Millisecond
+			go func() {
+				time.Sleep(time.Until(w.start.Add(healAt)))
+				w.net.heal()
+			}()
+			w.res.Faults["partition"]++
 		case "ask", "askmissing":
 			var key []byte
 			if op.K == "ask" {
@@ -218,6 +235,17 @@ func diffSummary(got, want []byte) string {
 }
 
 func c08AskRaw(w *world, P *puppet, R *baseNode, rp *proto, rv, pv []uint8, key, want []byte, stored, faults bool) {
+	// the table can change while the request is under way: membership is judged against the union
+	// of the snapshots taken before the request and after the reply
+	tab := map[enode.ID]*enode.Node{}
+	snap := func() {
+		for _, b := range rp.p.VerifTable().Nodes() {
+			for _, bn := range b {
+				tab[bn.Node.ID()] = bn.Node
+			}
+		}
+	}
+	snap()
 	var resp []byte
 	ok, err := w.call("rawfind", 30*time.Second, func() error {
 		var e error
@@ -308,12 +336,7 @@ func c08AskRaw(w *world, P *puppet, R *baseNode, rp *proto, rv, pv []uint8, key,
 			return
 		}
 		// records only from the routing table, non-decreasing log distance, never the asker
-		tab := map[enode.ID]*enode.Node{}
-		for _, b := range rp.p.VerifTable().Nodes() {
-			for _, bn := range b {
-				tab[bn.Node.ID()] = bn.Node
-			}
-		}
+		snap()
 		cid := enode.ID(rp.p.ToContentId(key))
 		last := -1
 		for i, n := range rep.enrs {
